@@ -359,6 +359,7 @@ func checkPathSet(c *facet.Ctx, in PSIn) (ret error) {
 	fail := func(i int, kind, format string, a ...any) *facet.Failure {
 		return facet.Failf(kind, "step %d (%s): %s", i, in.Steps[i].Op, fmt.Sprintf(format, a...)).With("unknown-keys", unk)
 	}
+	scratch := map[int]cty.Path{}
 	verify := func(i int, regs ...int) *facet.Failure {
 		for _, r := range regs {
 			listed := lib[r].List()
@@ -383,6 +384,26 @@ func checkPathSet(c *facet.Ctx, in PSIn) (ret error) {
 				_, want := mod[r][e.canon]
 				if got := lib[r].Has(e.path); got != want {
 					return fail(i, "pathset-has", "register %d: Has(%s) = %t, model %t (model: %s)", r, pathText(e.p), got, want, modelText(mod[r])).With("probe-unknown", boolText(hasUnknownKey(e.p)))
+				}
+			}
+			// the same questions asked, back to back and length by length, through
+			// ONE path buffer that the caller rewrites for every probe (as a
+			// walker does with the path it hands to its callback): Has keeps nothing
+			for n := 1; n <= 5; n++ {
+				for _, e := range pool {
+					if len(e.path) != n {
+						continue
+					}
+					buf := scratch[n]
+					if buf == nil {
+						buf = make(cty.Path, n)
+						scratch[n] = buf
+					}
+					copy(buf, e.path)
+					_, want := mod[r][e.canon]
+					if got := lib[r].Has(buf); got != want {
+						return fail(i, "pathset-has-reused-buffer", "register %d: Has(%s), asked through a path buffer rewritten since the previous probe, = %t, model %t", r, pathText(e.p), got, want).With("probe-unknown", boolText(hasUnknownKey(e.p)))
+					}
 				}
 			}
 		}
